@@ -489,7 +489,8 @@ for _scaf in SCAFFOLDS:
                     continue      # token items are free once deleted
                 quick = ((_scaf in ('note_tags', 'txn_postings', 'file_dirs') and _n == 2 and _kind in ('mid', 'tail_tok', 'head_tree')
                           and _op in ('insert', 'setitem', 'setslice', 'extend'))
-                         or (_kind == 'deleted' and _scaf in ('txn_postings', 'file_dirs') and _n == 3 and _op in ('setslice', 'setitem', 'insert')))
+                         or (_kind == 'deleted' and _scaf in ('txn_postings', 'file_dirs') and _n == 3 and _op in ('setslice', 'setitem', 'insert')
+                             and not (_scaf == 'file_dirs' and _op == 'setslice')))      # file_dirs3 setslice: > 400 s CPU, thorough only
                 _reg(make_rep(_scaf, _n, _op, 'refuse', attached=_kind), {'C19': Q if quick else T, 'C05': Q if (quick and _kind != 'mid' and _op != 'extend') else T},
                      900, 'rep/refuse-attached',
                      _bounds(_scaf, _n, _op) + '; one donor (symbolic position in the batch) is a node attached elsewhere (%s)' % _kind, cost=300)
